@@ -59,7 +59,7 @@ Proof.
     unfold listed_failure in Hl. change (all_files (p :: r)) with ((match p with Matches fs => fs | BadPattern => [] end) ++ all_files r)%list in *.
     rewrite existsb_app in Hl. apply orb_false_iff in Hl as [Hl1 Hl2].
     destruct p as [|fs].
-    + cbn [load_patterns app]. rewrite (IH _ _ _ _ Hn2 Hl2). reflexivity.
+    + discriminate.
     + assert (Hne : fs <> []) by (destruct fs; [discriminate|discriminate]).
       rewrite (load_patterns_cons_nonempty c fo fs r i _ Hne).
       rewrite (load_files_ok c fo fs n act sk Hl1).
@@ -74,7 +74,7 @@ Proof.
   revert i st; induction ps as [|p r IH]; intros i st H.
   - destruct H; discriminate.
   - destruct p as [|fs].
-    + cbn [load_patterns]. apply IH. destruct H as [H|H]; [left|right]; exact H.
+    + cbn [load_patterns]. eauto.
     + destruct fs as [|f fs']; [cbn; eauto|].
       cbn [load_patterns].
       destruct (existsb (file_listed c fo) (f :: fs')) eqn:E.
@@ -175,4 +175,21 @@ Proof.
   { apply existsb_exists. exists "experimental". split; [apply mem_In; exact Ht|].
     unfold disabled_tags. rewrite E, mem_app. simpl. rewrite orb_true_r. reflexivity. }
   congruence.
+Qed.
+
+(* a malformed pattern is an initialisation error whatever failOn says; before the repair it was skipped *)
+Lemma bad_pattern_always_error c ps fo :
+  parse_fail_on (c_fail_on c) (c_legacy c) = Some fo -> String.eqb (c_rules c) "" = false ->
+  In BadPattern ps -> exists e, init c ps = InitErr e.
+Proof.
+  intros Hfo Hr Hin. apply (init_fails_iff c ps fo Hfo Hr). left.
+  unfold has_no_match. apply existsb_exists. exists BadPattern. split; [exact Hin|reflexivity].
+Qed.
+
+Lemma bad_pattern_skipped_prefix_refuted :
+  exists c ps, In BadPattern ps /\ c_fail_on c = "all" /\ exists st, init_prefix c ps = PInitOk st.
+Proof.
+  exists {| c_rules := "[bad,r.go"; c_fail_on := "all"; c_legacy := false; c_enable := "<all>"; c_disable := "" |},
+         [BadPattern; Matches [("r.go", Valid [{| g_name := "g"; g_tags := [] |}])]].
+  split; [left; reflexivity|]. split; [reflexivity|]. eexists. vm_compute. reflexivity.
 Qed.
